@@ -114,6 +114,10 @@ def opOfJson (j : Json) : Except String Op := do
   | "rm_met" => pure (.rmMet (← s "m"))
   | "rm_met_d" => pure (.rmMetD (← s "m"))
   | "rm_rxn_o" => pure (.removeRxnO (← s "r"))
+  | "set_rule" => do
+    match fromString (← s "rule") with
+    | .rule g => pure (.setRule (← s "r") g)
+    | .malformed => throw "malformed rule"
   | "rm_rxns" => pure (.removeRxns (← (← (← j.getObjVal? "rs").getArr?).toList.mapM (·.getStr?)) (← (← j.getObjVal? "orphans").getBool?))
   | "imul" => pure (.imul (← s "r") (← parseRat (← s "k")))
   | "add_rxn" => pure (.addRxn (← s "r") (← parseEB (← s "lb")) (← parseEB (← s "ub")) (← pairsOf (← j.getObjVal? "st")))
@@ -161,8 +165,14 @@ partial def loop (h : IO.FS.Stream) (y : Option Sys) : IO Unit := do
       match initState j with
       | .ok s =>
         -- an `init` inside a trace re-synchronises the content; open contexts are kept only if asked for
+        -- (as many as the implementation has open at that moment: `depth`; what they recorded so far is not known to the model, their exits are
+        -- not compared)
         let keep := (j.getObjVal? "keep_ctx" >>= (·.getBool?)).toOption.getD false
-        let ctx := match y with | some y0 => if keep then y0.ctx.map (fun _ => []) else [] | none => []
+        let depth := (j.getObjVal? "depth" >>= (·.getNat?)).toOption
+        let ctx : List (List Undo) := match depth, y with
+          | some d, _ => if keep then List.replicate d [] else []
+          | none, some y0 => if keep then y0.ctx.map (fun _ => []) else []
+          | none, none => []
         IO.println (Json.mkObj [("err", Json.null), ("state", dump s)]).compress
         loop h (some { s := s, ctx := ctx })
       | .error e => IO.println (Json.mkObj [("bad-init", Json.str e)]).compress; loop h y
